@@ -87,8 +87,11 @@ fn exec(req: &str) -> String {
     let mut visible_ok = true;
     let mut once_ok = true;
     let pool = Pool::new();
+    // One result vector reused across broadcasts (cleared in between), the way
+    // `bench_loop_threaded` reuses `raw_samples`.
+    let mut v: Vec<Option<usize>> = Vec::new();
     for (b, &n) in hist.iter().enumerate() {
-        let mut v: Vec<Option<usize>> = Vec::new();
+        v.clear();
         let ids: Vec<Mutex<Option<(std::thread::ThreadId, Option<String>)>>> = (0..=n).map(|_| Mutex::new(None)).collect();
         let calls: Vec<AtomicUsize> = (0..=n).map(|_| AtomicUsize::new(0)).collect();
         // Plain (non-atomic) cells written by the task and read by the caller
@@ -108,14 +111,14 @@ fn exec(req: &str) -> String {
                 panic!("scripted");
             }
             shim::user_event(2, i as u32);
-            i * 10
+            i * 10 + 1
         });
         // --- the property, evaluated on the run itself
         if v.len() != n + 1 {
             results_ok = false;
         }
         for (i, r) in v.iter().enumerate() {
-            let expect = if panics.contains(&(b, i)) { None } else { Some(i * 10) };
+            let expect = if panics.contains(&(b, i)) { None } else { Some(i * 10 + 1) };
             if *r != expect {
                 results_ok = false;
             }
